@@ -8,6 +8,7 @@ import HmcVerif.Exec.C08
 import HmcVerif.Exec.C10
 import HmcVerif.Exec.C15
 import HmcVerif.Exec.C17
+import HmcVerif.Exec.C18
 import HmcVerif.Exec.C19
 open HmcVerif
 
@@ -38,6 +39,7 @@ def dispatch (cmd : String) : Option (P String) :=
   | "c16.tunerun" => some C02.tunerun
   | "c16.lrok" => some C02.lrok
   | "c17.eval" => some C17.eval
+  | "c18.trace" => some C18.trace
   | "c19.gd" => some C19.gd
   | _ => none
 
